@@ -205,20 +205,25 @@ def judge(trace, root, parent, n, acts, deps, walkabout, present, escaped):
 
 
 def _parts_walk():
-    return [[s, t] for s in range(NSHAPES) for t in range(16)]
+    parts = [[s, t] for s in range(NSHAPES) for t in range(16)]
+    if NSHAPES < 9:
+        # quick: the five 4-node trees with all four extension timings, visit actions only
+        parts += [[s, 15] for s in range(NSHAPES, 9)]
+    return parts
 
 
 @harness(
     parts=_parts_walk, timeout=(240, 2400), cls="F", tracing="symbolic-through-pydoctor", twin="first",
     code=["pydoctor.visitor.Visitor.walk", "pydoctor.visitor.Visitor.walkabout", "pydoctor.visitor.Visitor.visit", "pydoctor.visitor.Visitor.depart",
           "pydoctor.visitor.ExtList", "pydoctor.visitor.VisitorExt", "pydoctor.visitor._BaseVisitor.visit/depart"],
-    bounds={"quick": "every rooted ordered tree of <= 3 nodes (4 shapes) x every set of extension timings (16) x per node: visit action in {none, SkipChildren, SkipSiblings, SkipNode, SkipDeparture} and depart action in {none, SkipSiblings} x walk/walkabout",
+    bounds={"quick": "every rooted ordered tree of <= 3 nodes (4 shapes) x every set of extension timings (16) x per node: visit action in {none, SkipChildren, SkipSiblings, SkipNode, SkipDeparture} and depart action in {none, SkipSiblings} x walk/walkabout; plus the five 4-node trees with all four timings and visit actions only",
             "thorough": "trees of <= 4 nodes (9 shapes), same dimensions"},
     outside="extensions that raise pruning exceptions themselves; more than one extension per timing; trees of more than 4 nodes",
 )
 def h_walk(a0: int, a1: int, a2: int, a3: int, d0: bool, d1: bool, d2: bool, d3: bool, walkabout: bool) -> bool:
     """
     pre: 0 <= a0 <= 4 and 0 <= a1 <= 4 and 0 <= a2 <= 4 and 0 <= a3 <= 4
+    pre: NSHAPES == 9 or PART is None or PART[0] < NSHAPES or not (d0 or d1 or d2 or d3)
     post: _
     """
     si, timing = PART if PART is not None else [2, 15]
